@@ -353,9 +353,28 @@ namespace bluetoe {
         struct generate_attribute< std::tuple< characteristic_value_declaration_parameter, AttrOptions... >, CCCDIndices, ClientCharacteristicIndex, Service, Server, Options... >
         {
             // the characterist value has two configurable aspects: the uuid and the value. The value is defined in the charcteristic
-            typedef typename characteristic_or_service_uuid< typename Service::uuid, Options... >::uuid      uuid;
+            using characteristic_or_service_uuid_t = characteristic_or_service_uuid< typename Service::uuid, Options... >;
+            typedef typename characteristic_or_service_uuid_t::uuid                                          uuid;
             using char_t = characteristic< Options... >;
             static constexpr bool requires_encryption = characteristic_requires_encryption< char_t, Service, Server >::value;
+
+            // an automatic generated UUID is the service UUID xored with the position of the characteristic within the service
+            static constexpr std::uint16_t auto_uuid_index = characteristic_or_service_uuid_t::auto_generated_uuid
+                ? index_of< char_t, typename Service::characteristics >::value + 1
+                : 0;
+
+            static details::attribute_access_result access( attribute_access_arguments& args, std::size_t attribute_index )
+            {
+                if ( args.type != attribute_access_type::compare_128bit_uuid )
+                    return char_t::value_type::template characteristic_value_access< Server, ClientCharacteristicIndex, requires_encryption >( args, attribute_index );
+
+                return uuid::is_128bit
+                    && args.buffer[ 0 ] == ( uuid::bytes[ 0 ] ^ ( auto_uuid_index & 0xff ) )
+                    && args.buffer[ 1 ] == ( uuid::bytes[ 1 ] ^ ( auto_uuid_index >> 8 ) )
+                    && std::equal( std::begin( uuid::bytes ) + 2, std::end( uuid::bytes ), &args.buffer[ 2 ] )
+                    ? attribute_access_result::uuid_equal
+                    : attribute_access_result::read_not_permitted;
+            }
 
             static const attribute attr;
         };
@@ -365,7 +384,7 @@ namespace bluetoe {
             uuid::is_128bit
                 ? bits( details::gatt_uuids::internal_128bit_uuid )
                 : uuid::as_16bit(),
-            &characteristic< Options... >::value_type::template characteristic_value_access< Server, ClientCharacteristicIndex, requires_encryption >
+            &generate_attribute< std::tuple< characteristic_value_declaration_parameter, AttrOptions... >, CCCDIndices, ClientCharacteristicIndex, Service, Server, Options... >::access
         };
 
         /*
